@@ -477,6 +477,14 @@ func (x *c20Exec) compress(j *c20Job) ([]byte, bool) {
 			if werr = ci.c.Close(); werr != nil {
 				werr = fmt.Errorf("Close: %w", werr)
 			}
+			if werr == nil && j.pieceSd%5 == 0 {
+				// the `defer c.Close()` + `return c.Close()` idiom: a second Close
+				// must not add anything to the finished stream
+				x.res.Probes["compressor-closed-twice"]++
+				if err2 := ci.c.Close(); err2 != nil {
+					x.res.Probes["second-close-reports-error"]++
+				}
+			}
 		}
 	})
 	simrt.AfterBlock("c20.compress.done")
